@@ -182,9 +182,20 @@ func vfC17GcFrame(t *testing.T, s *vfutil.Session, c *vfGFCase, tag int, src str
 	defer src1.ln.Close()
 	in := vfStandalone(src1.ln.Addr().String())
 	if c.down {
+		// an unreachable node: a listener we keep (so nobody else can get the port) that hangs up on
+		// every connection before answering anything
 		dead, _ := net.Listen("tcp", "127.0.0.1:0")
 		addr := dead.Addr().String()
-		dead.Close() // nobody listens there any more
+		defer dead.Close()
+		go func() {
+			for {
+				c, err := dead.Accept()
+				if err != nil {
+					return
+				}
+				c.Close()
+			}
+		}()
 		in.Addresses = append(in.Addresses, addr)
 		in.SetClusterShards([]*config.RedisClusterShard{{Master: config.RedisNode{Address: src1.ln.Addr().String()}}, {Master: config.RedisNode{Address: addr}}})
 	}
